@@ -6,6 +6,11 @@
 (*                    vectors; the code consumes a prefix)                 *)
 (*          "trace" : the real scipy minimize was recorded; c.hist are the *)
 (*                    consumed vectors (projected to integers, P2)         *)
+(*          "flags" : only the projected numeric facts are judged          *)
+(*   flags  sequence of [name, ok]: numeric facts projected by the harness *)
+(*          with stated tolerances (P3/P5): NLL = closed-form WLS minimum, *)
+(*          L(returned parameters) = returned NLL, ...; a FALSE one is a   *)
+(*          failed clause of that name                                     *)
 (*   mode, niter, nconv, t05, t2   parameters of the loop (unit of values) *)
 (*   obs = [value, n, it, br, signs, back, padok]                          *)
 (*          value  returned -log L (same projection as hist)               *)
@@ -42,12 +47,14 @@ Clauses(c) ==
                   ELSE IF m.why = "inf" THEN "stops_after_50_inf"
                   ELSE IF m.why = "niter" THEN "stops_at_niter"
                   ELSE "stops_too_early"            \* the model is still running where the code stopped
-  IN   (IF m.done /\ m.j = o.n THEN {} ELSE {stopname})
-  \cup (IF o.n <= P.niter THEN {} ELSE {"stops_no_later_than_niter"})
-  \cup (IF inrange /\ O!PostValue(P, h, o) THEN {} ELSE {"returned_value_is_minimum"})
-  \cup (IF inrange /\ O!PostWinner(P, h, o) THEN {} ELSE {"parameters_of_winner"})
-  \cup (IF inrange /\ O!PostWinner(P, h, o) /\ ~O!PostSigns(P, h, o) THEN {"signs_of_winner"} ELSE {})
-  \cup (IF o.padok THEN {} ELSE {"zero_padding"})
+      loop ==   (IF m.done /\ m.j = o.n THEN {} ELSE {stopname})
+           \cup (IF o.n <= P.niter THEN {} ELSE {"stops_no_later_than_niter"})
+           \cup (IF inrange /\ O!PostValue(P, h, o) THEN {} ELSE {"returned_value_is_minimum"})
+           \cup (IF inrange /\ O!PostWinner(P, h, o) THEN {} ELSE {"parameters_of_winner"})
+           \cup (IF inrange /\ O!PostWinner(P, h, o) /\ ~O!PostSigns(P, h, o) THEN {"signs_of_winner"} ELSE {})
+           \cup (IF o.padok THEN {} ELSE {"zero_padding"})
+  IN   (IF c.kind = "flags" THEN {} ELSE loop)
+  \cup {c.flags[i].name : i \in {k \in 1..Len(c.flags) : ~c.flags[k].ok}}
 
 Verdict == LET c == Cases[ji] v == Clauses(c) IN
              v = {} \/ PrintT(ToJson([id |-> c.id, failed |-> v]))
